@@ -4,7 +4,7 @@
 copy of /repo's working tree and run every quick check against the copy.  Every patch must come out `CAUGHT-BY: -`: a check
 that reports one of them raises a false alarm.  Patches that no longer apply (the code they touch was repaired since) are
 skipped.  /repo itself is not touched."""
-import concurrent.futures as cf, glob, os, subprocess, sys
+import concurrent.futures as cf, glob, json, os, subprocess, sys
 VERIF = os.path.dirname(os.path.dirname(os.path.abspath(__file__)))
 
 
@@ -22,6 +22,10 @@ def main():
     pats = sorted(glob.glob(os.path.join(VERIF, "neutral", "*", "*", "*.diff")))
     if args:
         pats = [p for p in pats if any(p.endswith("/" + a + ".diff") or ("/" + a + "/") in p for a in args)]
+    try:
+        expected = json.load(open(os.path.join(VERIF, "neutral", "EXPECTED.json")))
+    except OSError:
+        expected = {}
     bad = 0
     with cf.ThreadPoolExecutor(max_workers=jobs) as ex:
         for p, out in ex.map(one, pats):
@@ -32,6 +36,10 @@ def main():
                 print("%s silent" % name)
             elif "does not apply" in verdict:
                 print("%s skipped (no longer applies)" % name)
+            elif name in expected and verdict.split(":", 1)[-1].strip().split(",") == expected[name]["reported_by"]:
+                # a patch that turned out NOT to be neutral for one property (neutral/EXPECTED.json says why): the report
+                # is right, and it must stay exactly that report
+                print("%s reported by %s as expected (not neutral for that property)" % (name, ",".join(expected[name]["reported_by"])))
             else:
                 bad += 1
                 print("%s FALSE ALARM: %s" % (name, verdict))
